@@ -51,6 +51,8 @@ def jobs(tier, seed):
     out.append({'fn': 'noref_sequences', 'cfg': {}})
     out.append({'fn': 'noref_fail_then_succeed', 'cfg': {}})
     out.append({'fn': 'derive_then_divide', 'cfg': {}})
+    out.append({'fn': 'noref_converter_sequences', 'cfg': {}})
+    out.append({'fn': 'power_sequences', 'cfg': {}})
     out.append({'fn': 'interleave', 'cfg': {'first': 5, 'depth': 1, 'canary': True}, 'canary': True})
     LAST_CONFIG_INFO.clear()
     LAST_CONFIG_INFO.update({'declarations': len(DECLS), 'probes': len(PROBES), 'depth': depth,
@@ -278,6 +280,95 @@ def noref_fail_then_succeed(E, cfg):
         a_, u_ = usd / pre.KILOGRAM
         E.check(u_ is usd_kg and a_ == 1, 'unit-quotient-succeeds-once-the-unit-is-declared', key='hist:noref-late-unit',
                 info=[order, form])
+
+
+def noref_converter_sequences(E, cfg):
+    """quotients within a type without reference unit go through its converters: the value of one quotient does not
+    depend on which quotients were evaluated before (overlapping tables, most recent first; a table that lists a pair
+    in one direction only, asked in the other direction repeatedly)"""
+    from decimalfp import Decimal
+    from quantity import Quantity, TableConverter
+    T = C.mk_cls('HScale')
+    sa, sb, sc = T.new_unit('hsa'), T.new_unit('hsb'), T.new_unit('hsc')
+    x = E.rational('x', 'dec')
+    y = E.rational('y', 'frac')
+    E.assume(E.And(x != 0, y != 0))
+    case = E.choice('case', ['overlap', 'one-direction-affine', 'one-direction-int'])
+    if case == 'overlap':
+        general = TableConverter([(sa, sb, Decimal(2), Decimal(0)), (sa, sc, Decimal(10), Decimal(0))])
+        special = TableConverter([(sa, sb, Decimal(3), Decimal(0))])           # registered later: decides sa <-> sb
+        T.register_converter(general)
+        T.register_converter(special)
+        # name -> (function, exact value)
+        ops = {'b/a': (lambda: Quantity(x, sb) / Quantity(y, sa), x / (3 * y)),
+               'a/b': (lambda: Quantity(x, sa) / Quantity(y, sb), 3 * x / y),
+               'c/a': (lambda: Quantity(x, sc) / Quantity(y, sa), x / (10 * y)),
+               'a/c': (lambda: Quantity(x, sa) / Quantity(y, sc), 10 * x / y)}
+    else:
+        f, o = (Decimal('1.8'), Decimal(32)) if case == 'one-direction-affine' else (7, 3)
+        T.register_converter(TableConverter([(sa, sb, f, o)]))
+        ff, oo = Fraction(f), Fraction(o)
+        E.assume(E.And(y * ff + oo != 0, y != oo))           # converted divisors are not zero
+        ops = {'b/a': (lambda: Quantity(x, sb) / Quantity(y, sa), x / (y * ff + oo)),       # y sa -> sb: forward
+               'a/b': (lambda: Quantity(x, sa) / Quantity(y, sb), x / ((y - oo) / ff)),      # y sb -> sa: reverse
+               'b/b': (lambda: Quantity(x, sb) / Quantity(y, sb), x / y)}
+    names = sorted(ops)
+    seqs = [(a, b, a) for a in names for b in names] + [(a, a, a) for a in names]
+    seq = E.choice('seq', seqs)
+    for i, name in enumerate(seq):
+        fn, exact = ops[name]
+        try:
+            r = fn()
+        except ZeroDivisionError:
+            E.ok('noref-converter-quotient-division-by-zero')
+            continue
+        except Exception as e:
+            E.fail('noref-converter-quotient', key='hist:noref-converter:%s' % type(e).__name__, info=[case, list(seq), i])
+            continue
+        E.check(r == exact, 'noref-converter-quotient-value', key='hist:noref-converter-value', info=[case, list(seq), i, name])
+    E.check([type(c).__name__ for c in T.registered_converters()] ==
+            ['TableConverter'] * (2 if case == 'overlap' else 1), 'noref-converter-list-unchanged',
+            key='hist:noref-converter-list')
+    if case == 'overlap':
+        E.check(list(T.registered_converters()) == [special, general], 'noref-converter-order-unchanged',
+                key='hist:noref-converter-order')
+
+
+def power_sequences(E, cfg):
+    """powers: repeated, with int and non-int exponents in either order, before and after the result type exists"""
+    from quantity import Quantity, UndefinedResultError
+    w = _world()
+    a = E.rational('a', 'dec')
+    E.assume(a != 0)
+    qa = Quantity(a, w['x1'])
+    sx = Fraction(5, 2)
+    order = E.choice('order', ['int-first', 'float-first', 'undefined-first'])
+
+    def bad_exponent(tag):
+        for label, fn in (('unit', lambda: w['x1'] ** 2.0), ('qty', lambda: qa ** 2.0)):
+            C.expect_raises(E, fn, TypeError, 'non-int-exponent-rejected-' + label, [order, tag])
+
+    def undefined(tag):
+        C.expect_raises(E, lambda: w['x1'] ** 2, UndefinedResultError, 'square-undefined-before-declaration', [order, tag])
+        C.expect_raises(E, lambda: qa ** 2, UndefinedResultError, 'qty-square-undefined-before-declaration', [order, tag])
+
+    def defined(tag, A2):
+        info = [order, tag]
+        r = qa ** 2
+        E.check(type(r) is A2 and r.amount * C.scale(r.unit) == a * a * sx * sx, 'qty-square-value', key='hist:pow-qty', info=info)
+        ru = w['x1'] ** 2
+        E.check(type(ru) is A2 and ru.amount * C.scale(ru.unit) == sx * sx, 'unit-square-value', key='hist:pow-unit', info=info)
+        r1 = qa ** 1
+        E.check(r1.unit.qty_cls is w['X'] and r1.amount * C.scale(r1.unit) == a * sx, 'qty-power-one', key='hist:pow-one', info=info)
+    if order == 'float-first':
+        bad_exponent('before')
+    undefined('before')
+    if order == 'undefined-first':
+        bad_exponent('after-undefined')
+    A2 = C.mk_cls('XArea', define_as=w['X'] ** 2)
+    defined('first', A2)
+    bad_exponent('after-int')
+    defined('second', A2)
 
 
 def derive_then_divide(E, cfg):
